@@ -98,10 +98,10 @@ IDENTS: list[Any] = [
 ALICE = 1
 
 
-def translate(ctx: Any) -> None:
+def translate(ctx: Any) -> bool:
     from translate import t_c25_layout
 
-    ctx.gen("G_StickyTok", lambda: t_c25_layout.generate(ctx.repo))
+    return bool(ctx.gen("G_StickyTok", lambda: t_c25_layout.generate(ctx.repo)))
 
 
 def _norm_ident(i: Any) -> Any:
@@ -408,7 +408,7 @@ THEOREMS = {
 
 
 def run(ctx: Any) -> None:
-    translate(ctx)
+    gen_ok = translate(ctx)
     ctx.prove(["model/M_StickyTok.vo", "gen/G_StickyTok.vo"], {})  # what the correspondence needs, whatever happens to the proofs
     ctx.prove(["prop/P_C25.vo", "refuted/R_C25.vo"], {"P_C25": THEOREMS["P_C25"]})
     ctx.prove(["tie/T_StickyTok.vo"], {"T_StickyTok": THEOREMS["T_StickyTok"]})
@@ -422,6 +422,9 @@ def run(ctx: Any) -> None:
         codec = t_c25_layout.describe(ctx.repo)["codec"]
     except Exception:  # noqa: BLE001
         codec = "?"
+    # the model runs with the regenerated codec; when the translation is broken (a transcribed function changed shape) the
+    # correspondence still runs, with the codec read directly from the decode call, so that a failing input can be found
+    codec_term = "gen_sid_codec" if gen_ok else {"ascii": "AsciiReplace", "utf-8": "Utf8Replace", "utf8": "Utf8Replace"}.get(codec.lower(), "AsciiReplace")
     rng = ctx.rng
     quick = ctx.tier == "quick"
     W = World(ctx)
@@ -515,7 +518,8 @@ def run(ctx: Any) -> None:
             variants.append((f"unused-bits-{low}", t[:-1] + alpha[v | low]))
         for name, h in variants:
             W.present("variant", wn, IDENTS[ii], h, base=t, variant=name)
-            W.delete("variant", wn, IDENTS[ii], h, base=t, variant=name)
+            if _lenient_envelope(h) not in W.minted:  # same-envelope texts would close the base session: see phase 3
+                W.delete("variant", wn, IDENTS[ii], h, base=t, variant=name)
     # 4. every token on every worker under its own identity; under every identity on its own worker; sampled other pairs
     for (wn, ii, n), t in toks.items():
         for w2 in WORKERS:
@@ -594,6 +598,11 @@ def run(ctx: Any) -> None:
         W.present("lifecycle-closed", "A", IDENTS[ALICE], t3, method="use_close")
         W.present("lifecycle-closed", "B", IDENTS[ALICE], t3)
         W.present("lifecycle-closed", "A", IDENTS[2], t3)
+    # closed by DELETE presenting another text of the same envelope (junk characters, padding)
+    t7 = toks[("A", ALICE, 7)]
+    W.delete("lifecycle-live", "A", IDENTS[ALICE], t7[:7] + "!" + t7[7:] + "==", variant="same-envelope")
+    W.delete("lifecycle-closed", "A", IDENTS[ALICE], t7)
+    W.present("lifecycle-closed", "A", IDENTS[ALICE], t7)
     # closed by close_session() inside a method
     t4 = toks[("A", ALICE, 4)]
     W.present("lifecycle-live", "A", IDENTS[2], t4, method="use_close")
@@ -671,7 +680,7 @@ def run(ctx: Any) -> None:
     ctx.sample({"class": "lifecycle-closed", "expected": "session_lost; DELETE 200 identical to every other 200"})
     ctx.sample({"class": "genuine", "worker": "U (server_id 'wörker')", "expected": "resumed", "codec_in_source": codec})
 
-    _model_side(ctx, W)
+    _model_side(ctx, W, codec_term)
     ctx.exhaustive = False
     ctx.assumptions += [
         "XChaCha20-Poly1305 is unforgeable (premise of the theorems; the real cipher is compared with the ideal table on the generated mutations only)",
@@ -683,7 +692,7 @@ def run(ctx: Any) -> None:
     ]
 
 
-def _model_side(ctx: Any, W: World) -> None:
+def _model_side(ctx: Any, W: World, codec_term: str) -> None:
     import shutil
     import subprocess
 
@@ -752,16 +761,16 @@ def _model_side(ctx: Any, W: World) -> None:
             ctx.obligation("correspondence:M_StickyTok.run_case", "correspondence", False, "tables did not compile: " + (pr.stdout + pr.stderr)[-1500:])
             return
         header = (
-            f'Add LoadPath "{tdir}" as C25T.\nFrom Coq Require Import List NArith ZArith Bool.\nFrom VGI Require Import Bytes Layout M_StickyTok G_StickyTok.\n'
+            f'Add LoadPath "{tdir}" as C25T.\nFrom Coq Require Import List NArith ZArith Bool.\nFrom VGI Require Import Bytes Layout M_StickyTok{" G_StickyTok" if codec_term == "gen_sid_codec" else ""}.\n'
             "From C25T Require Import C25Tables.\nImport ListNotations.\nOpen Scope N_scope.\n"
         )
         ctx.log("tables compiled; evaluating the model")
-        ok, bad, clog = ctx.coq_mismatches(header, "run_case T_aead T_text gen_sid_codec", "out_eqb", cases, "case_in", "list N * registry", shard=300)
+        ok, bad, clog = ctx.coq_mismatches(header, f"run_case T_aead T_text {codec_term}", "out_eqb", cases, "case_in", "list N * registry", shard=300)
         ctx.count("model_cases", len(cases))
         ctx.obligation("correspondence:M_StickyTok.run_case", "correspondence", ok and not bad, clog if not ok else f"{len(bad)} of {len(cases)} steps disagree")
         for i in bad[:3]:
             s = W.steps[i]
-            shown = ctx.coq_show(header, f"run_case T_aead T_text gen_sid_codec {cases[i][0]}")
+            shown = ctx.coq_show(header, f"run_case T_aead T_text {codec_term} {cases[i][0]}")
             ctx.violation(
                 "model-impl-disagree",
                 "implementation and model decide differently",
